@@ -343,3 +343,49 @@ func VerifC01_produceEarlyFail() {
 	w.checkGlobal(1)
 	verifReached("c01-produce-early-fail")
 }
+
+//verif:replace (*Client).triggerUpdateMetadata
+func (cl *Client) verifC01TriggerUpdateMetadata(must bool, why string) bool { return true }
+
+//verif:replace (*sink).maybeTriggerBackoff
+func (s *sink) verifC01MaybeTriggerBackoff(seq uint32) {}
+
+// A produce request fails retriably (connection died, NOT_LEADER, ...) and its batches come
+// back through handleRetryBatches. Whatever happened meanwhile — the partition stayed on the
+// sink or a metadata update moved it to another sink while the request was in flight — and
+// whatever the log level, the head batch must become drainable again (drain index rewound):
+// otherwise it is never re-sent, its promise never runs and Flush hangs. The batch is then
+// finished on whichever sink owns the partition, and every record is promised exactly once.
+func VerifC01_retryAfterInflightFailure() {
+	w := verifC01Build()
+	rb := w.bufs[0]
+	verifAssume(len(rb.batches) >= 1 && rb.batchDrainIdx >= 1)
+	w.seal()
+	old := rb.sink
+	moved := verifChoose(2) == 1
+	if moved {
+		rb.sink = &sink{cl: w.cl, nodeID: 2}
+	}
+	updateMeta := verifChoose(2) == 1
+	batch := rb.batches[0]
+	var retry seqRecBatches
+	retry.addSeqBatch(rb.topic, [16]byte{}, rb.partition, seqRecBatch{seq: rb.batch0Seq, recBatch: batch})
+	old.handleRetryBatches(retry, nil, 0, updateMeta, false, "verif: request failed")
+	verifAssert(rb.batchDrainIdx == 0, "after a retriable request failure the partition's head batch is drainable again (also when the partition moved to another sink while the request was in flight)")
+	verifAssert(len(rb.batches) >= 1 && rb.batches[0] == batch, "the failed request's batch stays at the head of the partition")
+	// ... it is re-sent on the owning sink and acknowledged
+	recs := append([]promisedRec(nil), batch.records...)
+	rb.batchDrainIdx = 1
+	rb.mu.Lock()
+	w.cl.finishBatch(batch, 1, 1, 7, nil)
+	rb.mu.Unlock()
+	verifRunAll()
+	ok := true
+	for _, pr := range recs {
+		t := w.byRec[pr.Record]
+		ok = ok && t.calls == 1 && t.err == nil
+	}
+	verifAssert(ok, "every record of the retried batch is promised exactly once")
+	w.checkGlobal(int64(len(recs)))
+	verifReached("c01-retry-after-failure")
+}
